@@ -79,8 +79,8 @@ def gen_transforms(rng, revolve_axis=None):
     return out
 
 
-def gen_ctor_case(rng):
-    if rng.random() < 0.5:
+def gen_ctor_case(rng, ctor=None):
+    if ctor == "series" or (ctor is None and rng.random() < 0.5):
         # cross-sections of a twisted, drifting duct: strongly non-uniform heights so that any other order of the
         # interior points is a visibly different (longer) curve
         k = rng.choice([3, 4, 4, 5, 6])
@@ -214,7 +214,7 @@ def arc_length3(a, m, b):
     return r * tb
 
 
-def oracle_ctor(case, ob):
+def oracle_ctor(case, ob, exact_mid=False):
     from props import C07 as base7
     np = _np()
     bad = []
@@ -263,6 +263,10 @@ def oracle_ctor(case, ob):
                     "off the circle by %.3g" % abs(float(np.linalg.norm(p - c)) - r) if off_circle else "on the other side of the chord"),
                     "C07:ctor:%s:arc-%s" % (case["ctor"], "off-circle" if off_circle else "wrong-side")))
                 continue
+            if exact_mid and float(np.linalg.norm(p - m)) > 1e-6 * scale:
+                bad.append(("side edge %d: arc %d %d is written through %s; half-way along the described arc lies %s" % (
+                    i, e["v1"], e["v2"], json.dumps(e["point"]), json.dumps(d["mids"][0])), "C07:ctor:%s:arc-not-halfway" % case["ctor"]))
+                continue
             want_len = arc_length3(d["a"], d["mids"][0], d["b"])
         ws = [w for w in ob["wires"] if {w[0], w[1]} == {ia, ib}]
         for w in ws:
@@ -280,7 +284,7 @@ def oracle_ctor(case, ob):
     return bad
 
 
-def check_ctor(case):
+def check_ctor(case, exact_mid=False, pid="C07"):
     """-> list of failure dicts (empty when the written edges draw what was described)"""
     try:
         ob = run_ctor_case(case)
@@ -288,7 +292,7 @@ def check_ctor(case):
         return [dict(kind="ctor", case=case, why="observation failed: %s" % e, sig="C07:ctor:unreadable-output")]
     except Exception as e:  # noqa: BLE001
         return [dict(kind="ctor", case=case, why="raised %s: %s" % (type(e).__name__, e), sig="C07:ctor:%s:raises" % case["ctor"])]
-    return [dict(kind="ctor", case=case, why=why, sig=sig) for (why, sig) in oracle_ctor(case, ob)[:1]]
+    return [dict(kind="ctor", case=case, why=why, sig=sig.replace("C07:", pid + ":", 1)) for (why, sig) in oracle_ctor(case, ob, exact_mid)[:1]]
 
 
 def shrink_ctor(case, sig):
